@@ -900,7 +900,7 @@ def main():
     ck.dist.update({"boundary_cases": nb, "trace_events": events, "distinct_interleavings": len(scheds),
                     "frames_scripted_complete": frames, "items_ok": ok_items, "items_err": err_items,
                     "ok_by_payload_type": kinds,
-                    "C11_payload_builder": {"frames_through_PayloadBuilder_build": frames, "payloads_delivered": ok_items,
+                    "C11_payload_builder": {"complete_frames_through_the_loop": frames, "payloads_delivered": ok_items,
                                             "image_payload_accessor_calls_under_catch_unwind": accessor,
                                             "accessor_panics": panics}})
     ck.finish()
